@@ -219,9 +219,52 @@ func sendUniqueStep(ss *stepSession, conc *abs.Conc, id string) (passed bool, er
 }
 
 // C18: stateful middlewares.
+// inductiveInvariants: Apalache proves QuotaInv for every quota n (QuotaInd) and WindowInv for
+// histories of any length (UniqueInd) as inductive invariants -- beyond the bounds TLC explores.
+// In the thorough tier a deliberately broken variant of each must be refuted (non-vacuity).
+func inductiveInvariants(run *core.Run) {
+	type job struct {
+		module, init string
+		length       int
+		subst        [2]string
+		wantError    bool
+	}
+	jobs := []job{
+		{"QuotaInd", "Init", 0, [2]string{}, false},
+		{"QuotaInd", "IndInit", 1, [2]string{}, false},
+		{"UniqueInd", "Init", 0, [2]string{}, false},
+		{"UniqueInd", "IndInit", 1, [2]string{}, false},
+	}
+	if run.Thorough() {
+		jobs = append(jobs,
+			job{"QuotaInd", "IndInit", 1, [2]string{"Cardinality(open) < n", "Cardinality(open) <= n"}, true},
+			job{"UniqueInd", "IndInit", 1, [2]string{"<<id>> \\o Without(w0, id)", "<<id>> \\o w0"}, true})
+	}
+	for _, j := range jobs {
+		res, err := tlcrun.Apalache(j.module, j.init, "IndInv", j.length, j.subst, 15*time.Minute)
+		switch {
+		case err != nil:
+			tail := ""
+			if res != nil {
+				tail = res.Tail
+			}
+			run.Problem("Apalache failed on %s (%s): %v\n%s", j.module, j.init, err, tail)
+		case j.wantError && !res.Error:
+			run.Problem("Apalache accepts a deliberately broken variant of %s: the inductive check is vacuous", j.module)
+		case !j.wantError && !res.OK:
+			run.Problem("Apalache refutes the inductive invariant of %s (%s) (model error, not a verdict on the code):\n%s", j.module, j.init, res.Tail)
+		case j.wantError:
+			run.Add("model_witnesses", 1)
+		default:
+			run.Add("inductive_obligations_proved", 1)
+		}
+	}
+}
+
 func C18(run *core.Run) {
 	conc := abs.NewConc()
 	distinct := core.NewDistinct()
+	inductiveInvariants(run)
 	depth := 4
 	if run.Thorough() {
 		depth = 6
@@ -398,7 +441,7 @@ func C18(run *core.Run) {
 	r := run.Rand("c18-long")
 	nt := 30
 	if run.Thorough() {
-		nt = 300
+		nt = 1500
 	}
 	var traces []tv.Trace
 	for t := 0; t < nt; t++ {
@@ -453,7 +496,7 @@ func C18(run *core.Run) {
 		run.Add("steps", int64(len(tr.Lines)))
 		traces = append(traces, tr)
 	}
-	out, err := tv.Validate(statefulTraceSpec, nil, traces, 6)
+	out, err := tv.ValidateChunks(statefulTraceSpec, nil, traces, 6, 100, 8)
 	if out != nil {
 		run.Add("traces_validated_against_impl", int64(out.Accepted+len(out.Rejects)))
 		run.Add("trace_lines", int64(out.Lines))
